@@ -23,11 +23,32 @@ MANIFEST = {
             "(C01_lyb_chunk_roundtrip), the writer fails only through its LOGINT branches, and the printed hash sequence of a "
             "sibling identifies it among its siblings (C01_lyb_hashseq_identifies; totality of hashing is refuted = finding "
             "lyb-hash-collision). Tie: scraped escape tables and LYB constants (T1), differential runs of the extracted models "
-            "against the static C functions incl. byte-identical LYB chunk streams around the 65535 boundary (T2). Whole "
-            "documents (all formats x printer options) are checked by the API round-trip oracle (search).",
+            "against the static C functions incl. byte-identical LYB chunk streams around the 65535 boundary (T2). "
+            "DOCUMENT LEVEL (slice doc, Tree subset: one data module, no anydata / opaque / union): xml_print = transcription of "
+            "printer_xml.c (shrink mode; namespace-declaration stack, metadata attributes, any node selection); "
+            "C01_xml_doc_roundtrip / _sel / _id: the libyang-side reader (XML element grammar + the model of lyxml_parse_value + "
+            "schema-directed conversion) applied to xml_print gives back exactly the selected part of every canonical forest, default "
+            "flags cleared (a document does not carry them), for side tables in which a prefix stands for one namespace; JSON: "
+            "json_print = transcription of printer_json.c WITH its state (level, level_printed, open arrays, first_leaflist), "
+            "json_doc = rendering of the RFC 7951 value; C01_json_doc_roundtrip_partial: json_parse (json_doc f) = f without flags; "
+            "the link json_print_all = json_doc is checked by T2 on every case, not proved. Tie: libyang's XML and JSON output "
+            "(explicit, report-all, trim, keep-empty; shrink) for generated modules / instances with metadata and empty-typed "
+            "leaf-lists is byte-identical to the extracted printers, and the extracted readers applied to LIBYANG's bytes return "
+            "libyang's dump; the executable hypotheses of the theorems are evaluated on every case. Whole documents for what the "
+            "models do not cover (all formats x printer options; opaque nodes from XML / JSON / the API, anydata / anyxml of every "
+            "value type, RPC / action / notification trees, values around the LYB chunk limit, metadata everywhere) are checked by "
+            "the API round-trip oracles RoundTrip, RoundTripX, RoundTripMeta (search).",
     "note": "Modelled (not verified) C: lyxml_dump_text, lyxml_parse_value, ly_getutf8/pututf8/checkutf8, json_print_string, "
-            "lyjson_string, lyb_write/lyb_read with start/stop siblings, lyb_hash_siblings/lyb_generate_hash. Trusted: Coq kernel, "
-            "extraction, drivers/generators. The document level (node order, flags, metadata, opaque nodes, anydata) is not "
-            "modelled in Coq yet: API-level oracle only.",
+            "lyjson_string, lyb_write/lyb_read with start/stop siblings, lyb_hash_siblings/lyb_generate_hash, xml_print_data "
+            "(xml_print_node/inner/term/node_open/ns/meta), json_print_data (json_print_node/member/value/leaf/container/inner/"
+            "leaf_list/array_*/attributes/metadata/meta_attr_leaflist), lyd_node_should_print through WithDefaults.should_print. "
+            "Trusted: Coq kernel, extraction, drivers/generators, ocaml/tree_io.ml + run_doc.ml, tools/treeenc.py + docenc.py. The "
+            "document-level READERS of the libyang side are readers for the documents the printer emits (real lexer models + "
+            "grammar + schema-directed conversion), not transcriptions of parser_xml.c / parser_json.c (no re-ordering, validation, "
+            "default flags): tied by reading libyang's own output only. Not modelled in Coq: opaque nodes, anydata, several data "
+            "modules, operations, the tagged with-defaults modes, LYB documents, formatted (non-shrink) output: API-level oracles "
+            "only. Findings of this slice are listed in known_findings.d/doc.json (json-trim-leaflist-meta, xml-meta-prefix-clash, "
+            "json-opaq-attr-unqualified, json-anydata-unqualified, json-anydata-nested-same-list, json-opaq-mixed-array, "
+            "json-opaq-list-value-lost), each with a replay and a proposed patch.",
     "technique": "Coq proof over hand-written model + differential correspondence (extracted OCaml vs C) + round-trip oracle",
 }
